@@ -45,7 +45,7 @@ Definition op_ok (m : mmstate) (o : mop) : bool :=
        | Some c => negb (String.eqb key "") || negb (limit =? 0)%Z || negb (rev_bad rev_ (ch_epoch c))
        | None => String.eqb key "" && match rev_ with None => true | Some _ => false end
        end)%bool
-  | MClear _ | MTick _ => false
+  | MClear _ | MTick _ | MCleanup _ _ => false
   end.
 
 Fixpoint run_ok (cf : mcfg) (m : mmstate) (ops : list mop) : bool :=
@@ -57,7 +57,7 @@ Fixpoint run_ok (cf : mcfg) (m : mmstate) (ops : list mop) : bool :=
 Definition op_chan (o : mop) : list string :=
   match o with
   | MPublish ch _ _ _ _ | MRemove ch _ _ _ _ | MReadState ch _ _ _ _ _ _ | MReadStream ch _ _ _ _ _ | MClear ch => [ch]
-  | MTick _ => []
+  | MTick _ | MCleanup _ _ => []
   end.
 Definition chans (ops : list mop) : list string := flat_map op_chan ops.
 
@@ -632,7 +632,7 @@ Lemma step_ok U n cf rs m o :
   cfg_ok cf = true -> keys_ok U -> (forall ch, In ch (op_chan o) -> In ch U) -> R U n rs m ->
   (Z.of_N n < mc_size cf)%Z -> op_ok m o = true -> step_goal U n cf rs m o.
 Proof.
-  intros Hcf HK Hin HR Hn Hok. destruct o as [ch key po nonce now_|ch key ro nonce now_|ch rev_ limit key asc nr nm|ch since limit reverse nr nm|ch|ms];
+  intros Hcf HK Hin HR Hn Hok. destruct o as [ch key po nonce now_|ch key ro nonce now_|ch rev_ limit key asc nr nm|ch since limit reverse nr nm|ch|ms|cnow cnode];
     cbn [op_ok] in Hok; try discriminate Hok.
   - apply andb_true_iff in Hok as [H1 H2]. apply step_publish; try assumption. apply Hin. left. reflexivity.
   - apply andb_true_iff in Hok as [H1 H3]. apply andb_true_iff in H1 as [H1 H2].
